@@ -10,10 +10,12 @@ from checks import callflow as cf, c05
 LINE = re.compile(r"^(\d+)\s+(\w+)\((.*)$")
 
 
-def traced_call(b, ctx, ini, envlen, tag, pty=False):
+def traced_call(b, ctx, ini, envlen, tag, pty=False, fsize=None):
     s = drv.Script()
     if pty:
         s.add("sinkpty")
+    if fsize is not None:
+        s.add("fsizelimit", fsize)
     s.add("ini", drv.hx(ini)).add("envpat", drv.hx(b"V1"), envlen, 3)
     s.path(ctx.helper).argv([b"prog"]).envp([b"A=1"]).add("ret", -1, 2).add("quiet", 1).add("emit", "go").call("execve", tag)
     sp, op, tr = os.path.join(ctx.w, tag + ".script"), os.path.join(ctx.w, tag + ".out"), os.path.join(ctx.w, tag + ".strace")
@@ -120,6 +122,25 @@ def run(tier, seed, replay=None):
             if now != expect:
                 problems.append("file content after the call is not old content + record (old %d bytes, now %s bytes, expected %d)" % (len(old), len(now) if now is not None else None, len(expect)))
         meta.append(dict(out=out, n=n, pre=pre, events=evs, problems=problems))
+    # the file system takes only part of the record (RLIMIT_FSIZE a few bytes above the current size): whatever the library then does, it must not
+    # cut the file back (another writer may have appended in the meantime) -- no ftruncate, no O_TRUNC, old content still there
+    ctx2 = cf.Ctx(b, os.path.join(b["root"], "short"))
+    for k, n in enumerate((100, 5000)):
+        log = os.path.join(ctx2.w, "short-%d.log" % k)
+        old = b"existing line one\nexisting line two\n" * 20
+        open(log, "wb").write(old)
+        ini = b'[snoopy]\nmessage_format = "%{env:V1}"\noutput = file:' + log.encode() + b"\ndatasource_message_max_length = 1048575\nlog_message_max_length = 1048575\n"
+        tr = traced_call(b, ctx2, ini, n, "s%d" % k, fsize=len(old) + 40)
+        evs = log_events(tr, log, n + 1)
+        now = open(log, "rb").read()
+        probs = []
+        if any(e["e"] == "ftruncate" or (e["e"] == "open" and e.get("trunc")) for e in evs):
+            probs.append("the log is truncated after a short write: %s" % [(e["e"], e.get("n", "")) for e in evs])
+        if not now.startswith(old):
+            probs.append("content that was in the file before the call is gone (%d of %d old bytes left)" % (len(os.path.commonprefix([now, old])), len(old)))
+        for p_ in probs:
+            rep.violation("file:short-write:%s" % ("ge4096" if n >= 4096 else "lt4096"), "file output, record of %d bytes, the file system accepts only 40 more bytes: %s" % (n + 1, p_), dict(events=evs))
+        meta.append(dict(out="file", n=n, pre="short-write", events=evs, problems=[]))
     trace.append({"e": "end"}); index.append(len(scen) - 1)
     tf = os.path.join(b["root"], "c17.ndjson")
     with open(tf, "w") as f:
